@@ -65,14 +65,21 @@ THEOREMS = [
     "BeyondVerif.C19.bplane_B_perp",
     "BeyondVerif.C19.bplane_B_norm",
 ]
-LEVEL_TEXT = ("Lean theorems over R about formulas translated from the Python source on every run (Stumpff functions, y, F, dF, A, f/g/gdot of lambert.py; the three modes "
-              "of leo.sso; the node rate of propagators/j2.py and Infos.n; raan2ltan/ltan2raan; raan/nu of both Walker classes) and about hand-written models of the "
+LEVEL_TEXT = ("Lean theorems over R about formulas translated from the Python source on every run (Stumpff functions, y, F, dF, A, f/g/gdot AND the head of _lambert - norms, cross "
+              "product, arccos, direction / way selection - of lambert.py; the three modes "
+              "of leo.sso; the three secular rates of propagators/j2.py, the text of the J2.orbit getter / setter, and Infos.n; raan2ltan/ltan2raan; raan/nu of both Walker classes) and about hand-written models of the "
               "Lambert loops, the Walker generators, beta and bplane that are tied to the code by a differential correspondence run: LTAN<->RAAN are exact inverses modulo "
               "day / 2 pi for any sun angle; Walker fleets have t satellites, evenly spaced planes, phasing 2 pi f / t; sso is self-inverse and makes the J2 node rate equal "
               "the solar rate; the Lambert velocities satisfy the f-g arrival relations with the universal-variable Lagrange coefficients whenever F(z) = 0, the returned "
               "state (r0, v0) solves Kepler's universal equation for the requested time with z = alpha chi^2 (all four direction/way cases), the bracketed Newton "
               "loop breaks only when its last step (Newton or bisection) is below the tolerance and its iterates never leave the bracket found by the scan; beta is in [-pi/2, pi/2] and is the elevation above the orbit plane; S is the unit incoming-asymptote direction, (S,T,R) "
-              "orthonormal, B perpendicular to S and h with |B| = |a| sqrt(e^2-1).")
+              "orthonormal, B perpendicular to S and h with |B| = |a| sqrt(e^2-1). "
+              "Direction / way selection (as it is in the source: lamDtheta_eq): for EVERY non-collinear pair of positions - r0 x r1 != 0 as a vector, any of its components may be exactly zero - and either "
+              "request, 0 < dtheta < 2 pi, dtheta != pi, A finite and non-zero, the two requests add up to 2 pi (the two ways round), sin(dtheta) and the z component of r0 x v0 of the "
+              "returned state have the sign the request asks for; the Kepler-equation theorem holds with the single geometric hypothesis r0 x r1 != 0; kernel-checked witness that a "
+              "sign(cr[2])-based selection degenerates at cr[2] = 0. J2 propagator object as a state machine (user's orbit + private copy; setter text regenerated from the AST and "
+              "proved to be the unconditional copy): along every history of propagations and in-place writes of elements / date on one orbit object each propagation returns what a fresh "
+              "object built from the current values returns, and once the inclination is sso(a, e) of the current a, e the node moves at the solar rate.")
 LEVEL_NOTE = ("R -> double gap covered only by tolerance-bounded correspondence (this gap is where the two findings, now fixed in /repo, lived: NaN from a Newton overshoot "
               "- 5cfb34d, NaN from arcsin(1+ulp) - 1d112fc; their oracle families stay alive); existence of the Lambert root, convergence of scan + Newton, and 'the universal-variable f-g map is the two-body flow' are not proved; "
               "Lean kernel + propext/Classical.choice/Quot.sound; py2lean translator and harness trusted")
@@ -80,12 +87,18 @@ TECHNIQUE = "Lean 4 proof (ring / field_simp / floor arithmetic / induction on l
 TRUSTED = [
     "harness/py2lean.py + fn_def/Tr19 in harness/props/C19.py: translate the function bodies of lambert.py (_C,_S,_y,_F,_dF, A and f/g/gdot slices of _lambert), leo.py (three return expressions of sso), "
     "j2.py (com, dOmega), statevector.py (Infos.n), ltan.py (raan2ltan, ltan2raan), constellation.py (raan, nu of both classes) into Generated/{LambertFn,LeoFn,LtanFn,WalkerFn}{F,R}.lean on every run",
-    "lean/templates/Mission.tpl (hand-written: 3-vector algebra, dtheta selection, scan and Newton loops, v0/v1 assembly, Walker generator loops, beta, bplane), tied by the correspondence run",
+    "lean/templates/Mission.tpl (hand-written: 3-vector algebra, scan and Newton loops, v0/v1 assembly, Walker generator loops, beta, bplane, the J2Obj state machine - its setter is the "
+    "unconditional copy that theorem j2_setter_unconditional reads off the regenerated setter text), tied by the correspondence run",
+    "TrSel / dtheta_def / accessor_stmts in harness/props/C19.py: the statements of _lambert before `A = ...` -> Generated/LambertFn.lamDthetaSrc (3-vectors as components, np.cross, np.linalg.norm, `@`, np.sign, "
+    "if/elif); the unparsed statements of the J2.orbit getter and setter -> Generated/LeoFn.j2OrbitGetter / j2OrbitSetter",
     "numpy / libm double arithmetic vs R: tolerance 1e-9 relative (1e-7 (1 + 0.01/dE^2) on Lambert velocities after the iteration, whose exit criterion is an absolute 1e-8 in z = dE^2), Walker fleets bit-exact",
 ]
 ASSUMPTIONS = [
     "theorems are over R; the implementation computes in IEEE doubles",
-    "Lambert: F(z) = 0 (resp. the convergence flag) is a hypothesis; y(z) >= 0, C(z) > 0, mu > 0, g != 0",
+    "Lambert: F(z) = 0 (resp. the convergence flag) is a hypothesis; y(z) >= 0, C(z) > 0, mu > 0, g != 0; geometry: r0 != 0, r1 != 0, r0 x r1 != 0 as a vector (no condition on single components)",
+    "oracle on hand-written geometry: positions 15 to 165 deg apart, transfer time 1.05 to 5 times the parabolic time (Euler's equation) of the way round that the request designates - an elliptic solution of "
+    "less than one revolution exists; for cr[2] = 0 or |cr[2]| <= 1e-9 |r0||r1| (polar transfer plane, neither way is pro- or retrograde) the time exceeds both parabolic times and either way is accepted",
+    "J2 histories: the user's orbit is kept in keplerian_mean form (writes by index 0..5 and of the date); the model's epoch is seconds from the first epoch",
     "sso: a > 0, mu > 0, re != 0, J2 != 0, e^2 != 1 (0 <= e < 1 for the eccentricity mode) and -1 <= ssoCos <= 1 (a sun-synchronous inclination exists)",
     "the 'mean solar rate' is the constant the code uses, 2 pi / 365.256363004 d (sidereal year); the tropical-year rate differs from it by 3.9e-5 relative",
     "B-plane: e > 1, h != 0, S not along the pole (0,0,1) (T undefined there); |a| is an input of the model (cartesian -> keplerian conversion belongs to C01)",
@@ -96,17 +109,27 @@ NOT_COVERED = [
     "that the universal-variable formulation (Kepler's universal equation + Lagrange coefficients f, g) is the two-body flow (classical result, C05's domain; what IS proved: the returned state satisfies that equation for the requested time and r1 = f r0 + g v0); the oracle propagates with an independent universal-variable Kepler solver and with the Kepler propagator",
     "lamDF is the derivative of lamF (Newton would merely converge more slowly otherwise): not proved",
     "_mean_sun_raan / _true_sun_raan themselves (the theorems hold for an arbitrary sun angle), orb2ltan, sso_frozen / frozen, beta_limit, flyby (which references undefined names and cannot run)",
-    "theta of the B-plane",
+    "theta of the B-plane (observed while adding coordinate-plane hyperbolas: for an equatorial hyperbola B is parallel to T, the arccos argument is +-1 +- 1 ulp and theta is 0, pi or NaN "
+    "according to rounding, in the code and in the model alike; theta is not part of the property statement)",
+    "Orbit.propagate / Orbit.iter themselves (`if self.propagator.orbit is not self: self.propagator.orbit = self`, orbits/orbit.py): part of the J2Obj model by description, exercised by the history "
+    "correspondence and the sso-sequence oracle, not translated from the source (C05's anchor)",
 ]
 OPEN = [
-    "beta and bplane models are hand-written (vector code is outside py2lean's expression language); tied to the code by correspondence only",
+    "beta and bplane models are hand-written; tied to the code by correspondence only (TrSel of this module would translate them - done for the head of _lambert only)",
+    "at cr[2] = 0 the request cannot be 'matched' (a polar transfer is neither pro- nor retrograde): what is proved there is that a proper angle is chosen and that the two requests are the two ways round",
     "sso i -> a -> i and i -> e -> i round trips (modes starting from an inclination) are checked by the oracle only",
 ]
 RULE = ("correspondence: random inputs from ctx.rng through the real functions and the compiled Lean model: lambert scalar functions (z<0, 0, >0; y<0 gives non-finite on both sides), "
-        "full _lambert (both directions, short/long way, small angles), sso 3 modes + J2 node rate measured through J2.propagate, ltan both types (sun angle taken from the real code), "
-        "Walker fleets bit-exact incl. planes not dividing total, beta vs Orbit references, bplane for e in [1.05,10]; non-trivial = every case; distinct = distinct request. "
-        "oracle: Lambert arrival within 10 m by independent universal-variable propagation and by the Kepler propagator through the public lambert(); sso round trips + node rate; "
-        "ltan round trips; Walker count/planes/in-plane/phasing; beta range + elevation incl. bodies on the orbit normal; bplane S/orthonormal/B perp/|B|/B x v_inf = h")
+        "full _lambert on arcs cut from orbits (both directions, short/long way, small angles) and on hand-written geometry (coordinate planes, planes through one axis, exact-zero components of "
+        "r0 x r1, axis-parallel positions, exactly 90 deg, both requests; a non-finite or > 1e5 m/s result inside the domain is a failure of the code, not agreement), transfer angle / A of the model "
+        "on the same geometry, histories propagate / orb[k] = v / orb.date = t on one Orbit object with a J2 propagator against the J2Obj state machine, sso 3 modes + J2 node rate measured "
+        "through J2.propagate, ltan both types (sun angle taken from the real code), "
+        "Walker fleets bit-exact incl. planes not dividing total and raan0 != 0 (whole degrees, tenths, next to 2 pi), beta vs Orbit references incl. axis-aligned orbits and bodies exactly on an axis / on the normal, "
+        "bplane for e in [1.05,10] incl. hyperbolas in coordinate planes; non-trivial = every case; distinct = distinct request. "
+        "oracle: Lambert arrival within 10 m by independent (bracketed) universal-variable propagation and by the Kepler propagator through the public lambert(); on hand-written geometry both requests: finite, arrival at "
+        "both ends, direction of r0 x v0, two ways round; sso round trips + node rate; sso -> Orbit(J2) -> propagate|iter -> tune i|a|e in place -> propagate|iter: solar rate and equal to a fresh object; "
+        "ltan round trips; Walker count/planes/in-plane/phasing (thorough: every p <= 6, t/p <= 4, f < p); beta range + elevation incl. bodies on the orbit normal and on the axes; "
+        "bplane S/orthonormal/B perp/|B|/B x v_inf = h incl. coordinate planes; read - modify in place - read again on the objects handed to beta, bplane and on Walker objects")
 
 MU_E = 3.986004418e14          # only used by the generators to make plausible cases; the checks read mu from the real frames
 TWO_PI = 2 * math.pi
@@ -496,6 +519,66 @@ def geom_tof(r0, r1, pro, factor, mu):
         short = (crz > 0) == pro
         tp = t_parab(r0, r1, not short, mu)
     return round(tp * factor, 6)
+
+
+_CENTER_FRAMES = {}
+CENTER_SCALE = {"Earth": 1.0, "Moon": 0.3, "Sun": 5000.0}     # lengths of the generators are multiplied by this
+
+
+def center_frame(name):
+    """(frame, mu) for a centre other than the default: the frames of beyond.env.solarsystem (analytical Sun / Moon); mu is read
+    from beyond.constants, not from the frame the code under test reads it from"""
+    import warnings
+    from beyond import constants
+    if name == "Earth":
+        return "EME2000", constants.Earth.mu
+    if name not in _CENTER_FRAMES:
+        from beyond.env import solarsystem
+        with warnings.catch_warnings():
+            warnings.simplefilter("ignore")
+            _CENTER_FRAMES[name] = solarsystem.get_frame(name)
+    return _CENTER_FRAMES[name], getattr(constants, name).mu
+
+
+def check_lambert_center(out, rng, center):
+    """lambert() in a frame centred on another body (docstring: 'orb0 should be expressed in the "Sun" ... reference frame'), the
+    target orbit possibly given in another frame: gravitational parameter of the frame's centre, conversion of the target"""
+    import numpy as np
+    from beyond.dates import Date, timedelta
+    from beyond.orbits import Orbit
+    from beyond.utils.lambert import lambert
+    frame, mu = center_frame(center)
+    sc = CENTER_SCALE[center]
+    g = gen_geometry(rng, axis=rng.random() < 0.5)
+    r0, r1 = np.array(g["r0"]) * sc, np.array(g["r1"]) * sc
+    pro = rng.random() < 0.5
+    factor = rng.uniform(1.1, 4.0)
+    tof = geom_tof(list(r0), list(r1), pro, factor, mu)
+    other = rng.choice([None, None, "EME2000" if center != "Earth" else "MOD", "TOD" if center == "Earth" else "EME2000"])
+    zone, zeros = geom_zone(list(r0), list(r1))
+    inp = {"center": center, "r0": [float(x) for x in r0], "r1": [float(x) for x in r1], "prograde": pro, "factor": factor, "tof": tof, "target_frame": other, "plane": g["plane"]}
+    out.count(key=("lambert-center", center, tuple(inp["r0"]), tuple(inp["r1"]), pro), kind="lambert-center-" + center, target_frame=str(other))
+    d0 = Date(2024, 1, 1) + timedelta(seconds=rng.uniform(0, 3e7))
+    o0 = Orbit(list(r0) + [0.0, 0.0, 0.0], d0, "cartesian", frame, None)
+    o1 = Orbit(list(r1) + [0.0, 0.0, 0.0], d0 + timedelta(seconds=tof), "cartesian", frame, None)
+    if other:
+        o1 = o1.copy(frame=other)
+    s0, s1 = lambert(o0, o1, pro)
+    v0 = np.array(s0[3:], float)
+    size = float(np.linalg.norm(r0) + np.linalg.norm(r1))
+    tol = max(10.0, 2e-9 * size)
+    tag = f"{center}-{'other-frame' if other else 'same-frame'}"
+    if str(s1.frame) != str(s0.frame) or not float(np.linalg.norm(np.asarray(s1[:3], float) - r1)) < max(1e-3, 1e-12 * size) * (1e3 if other else 1):
+        out.fail("lambert-center-target-" + tag, "lambert() does not return the target at its position in the frame of the initial orbit", inp,
+                 observed={"frame": str(s1.frame), "pos": [float(x) for x in s1[:3]]}, expected={"frame": str(s0.frame), "pos": inp["r1"]})
+        return
+    if not (np.all(np.isfinite(v0)) and float(np.abs(v0).max()) < 1e6):
+        out.fail("lambert-center-nonfinite-" + tag, "lambert() returns non-finite velocities in a frame centred on " + center, inp, observed=[float(x) for x in v0])
+        return
+    err = float(np.linalg.norm(kepler_uv(r0, v0, tof, mu) - r1))
+    if not err < tol:
+        out.fail("lambert-center-arrival-" + tag, "velocity returned by lambert() does not arrive at the target under the gravity of the centre of the frame of the initial orbit", inp,
+                 observed={"miss_m": err, "v0": [float(x) for x in v0]}, expected={"miss_m": f"< {tol}"})
 
 
 def check_lambert_geom(out, g, pro, factor, use_orbit_api):
@@ -929,12 +1012,12 @@ def check_beta(out, rng, mode=None):
 
 # ---------------------------------------------------------------- B-plane
 
-def hyper_state(rng, axis, mu):
+def hyper_state(rng, axis, mu, scale=1.0):
     """a hyperbolic state (e in [1.05, 10], any anomaly short of the asymptotes); axis=True: the hyperbola lies in a plane
     spanned by exact unit vectors, with the periapsis direction P along one of them (exact-zero components throughout)"""
     import numpy as np
     e = rng.choice([rng.uniform(1.05, 2.0), rng.uniform(2.0, 10.0)])
-    a = -rng.uniform(5e6, 5e8)
+    a = -rng.uniform(5e6, 5e8) * scale
     nu = rng.uniform(-0.97, 0.97) * math.acos(-1 / e)
     if axis:
         while True:
@@ -954,23 +1037,22 @@ def hyper_state(rng, axis, mu):
     return a, e, nu, P, Q, r, v, kind
 
 
-def check_bplane(out, rng, axis=False):
+def check_bplane(out, rng, axis=False, center="Earth"):
     import numpy as np
     from beyond.orbits import Orbit
     from beyond.dates import Date
     from beyond.utils.interplanetary import bplane
-    from beyond.frames.frames import get_frame
-    mu = get_frame("EME2000").center.body.mu
-    a, e, nu, P, Q, r, v, kind = hyper_state(rng, axis, mu)
-    orb = Orbit(list(r) + list(v), Date(2023, 5, 6), "cartesian", "EME2000", None)
+    frame, mu = center_frame(center)
+    a, e, nu, P, Q, r, v, kind = hyper_state(rng, axis, mu, CENTER_SCALE[center])
+    orb = Orbit(list(r) + list(v), Date(2023, 5, 6), "cartesian", frame, None)
     bp = bplane(orb)
     B, S, T, Rv, h = (np.asarray(x, float) for x in (bp.B, bp.S, bp.T, bp.R, bp.h))
     S_exp = P / e + Q * math.sqrt(e * e - 1) / e      # direction of the velocity for nu -> -nu_inf
     bn = abs(a) * math.sqrt(e * e - 1)
-    inp = {"a": a, "e": e, "plane": kind, "nu": nu, "state": [float(x) for x in list(r) + list(v)]}
-    out.count(key=("bplane", a, e, nu), kind="bplane" + ("-axis" if axis else ""), e_range="<2" if e < 2 else ">=2", side="incoming" if nu < 0 else "outgoing")
+    inp = {"a": a, "e": e, "plane": kind, "nu": nu, "center": center, "state": [float(x) for x in list(r) + list(v)]}
+    out.count(key=("bplane", a, e, nu), kind="bplane" + ("-axis" if axis else ""), e_range="<2" if e < 2 else ">=2", side="incoming" if nu < 0 else "outgoing", center=center)
     tol = 1e-9 * e * e / (e - 1)
-    sfx = "-axis" if axis else ""
+    sfx = ("-axis" if axis else "") + ("" if center == "Earth" else "-" + center)
     if not np.all(np.isfinite(np.concatenate([B, S, T, Rv]))):
         out.fail("bplane-nonfinite" + sfx, "B-plane of a hyperbolic state is not finite", inp, observed=[list(map(float, x)) for x in (B, S, T, Rv)])
         return
@@ -1304,6 +1386,8 @@ def oracle(ctx, widened):
         check_sso_sequence(out, rng)
         check_bplane(out, rng, axis=True)
         check_helper_histories(out, rng)
+        check_lambert_center(out, rng, ("Sun", "Moon", "Earth")[k % 3])
+        check_bplane(out, rng, axis=(k % 2 == 0), center=("Moon", "Sun")[k % 2])
     if big:
         # every small Walker triple, both patterns, a non-zero raan0
         for p in range(1, 7):
